@@ -241,6 +241,37 @@ func describeNode(t *pt.Table) string {
 
 func c18Node(n *snapNode, humanized bool, st *SuiteStats, viol map[string]*Violation, suite string) {
 	t := n.T
+	// A locked outside call (re-buy, add-on, departure) that lands after startGame has set the status to
+	// playing and before the hand's first state has arrived publishes "playing" without a hand state: a bot
+	// shown that is not asked anything and must stay silent (in particular it must survive it).
+	if !humanized && t.State.Status == pt.TableStateStatus_TableGamePlaying && t.State.GameState != nil && gsEvent(t) == "ReadyRequested" {
+		for _, p := range t.State.PlayerStates {
+			variant := deepCopy(t)
+			variant.State.GameState = nil
+			var calls []recCall
+			res := vrt.Run(vrt.Config{MaxSteps: 100000}, func(env *vrt.Env) {
+				rec := &recEngine{now: env.Now}
+				a := newActorOn(rec, deepCopy(variant), actor.NewBotRunner(p.PlayerID))
+				a.GetTable().UpdateTableState(variant)
+				env.Settle()
+				calls = rec.calls
+				st.Transitions++
+				st.Execs++
+			})
+			key, detail := "", ""
+			if res.DriverPanic != "" {
+				key, detail = "panic@playing-without-hand-state", fmt.Sprintf("bot %s shown status playing without a hand state panics: %s", p.PlayerID, firstLine(res.DriverPanic))
+			} else if len(calls) > 0 {
+				key, detail = "acts-when-not-asked@playing-without-hand-state", fmt.Sprintf("bot %s shown status playing without a hand state submitted %+v", p.PlayerID, calls)
+			}
+			if key != "" {
+				if _, ok := viol[key]; !ok && !hitKnown(key, detail) {
+					clause, k := splitKey(key)
+					viol[key] = &Violation{Suite: suite, Clause: clause, Key: k, Detail: detail + "\nnode: " + describeNode(t) + "\nfrom: " + n.From}
+				}
+			}
+		}
+	}
 	ids := []string{"ghost"}
 	for _, p := range t.State.PlayerStates {
 		ids = append(ids, p.PlayerID)
@@ -266,6 +297,11 @@ func c18Node(n *snapNode, humanized bool, st *SuiteStats, viol map[string]*Viola
 				}
 				a.GetTable().UpdateTableState(view)
 				env.Settle()
+				if humanized {
+					// the same state delivered again while the think-time timer is pending: still one answer
+					a.GetTable().UpdateTableState(deepCopy(view))
+					env.Settle()
+				}
 				for i := 0; i < 4 && env.PendingTimers() > 0; i++ {
 					env.AdvanceTimer()
 					env.Settle()
@@ -300,6 +336,20 @@ func c18Node(n *snapNode, humanized bool, st *SuiteStats, viol map[string]*Viola
 				}
 				if len(rec.calls) != 0 {
 					v = &Viol{Key: "acts-on-stale-view", Detail: fmt.Sprintf("bot %s was shown the same state twice and acted again: %+v", id, rec.calls)}
+					return
+				}
+				// an older state of the same hand arriving late is stale too
+				older := deepCopy(view)
+				older.State.GameState.UpdatedAt--
+				older.UpdateSerial--
+				a.GetTable().UpdateTableState(older)
+				env.Settle()
+				for i := 0; i < 4 && env.PendingTimers() > 0; i++ {
+					env.AdvanceTimer()
+					env.Settle()
+				}
+				if len(rec.calls) != 0 {
+					v = &Viol{Key: "acts-on-stale-view", Detail: fmt.Sprintf("bot %s was shown an older state of the hand after a newer one and acted again: %+v", id, rec.calls)}
 				}
 			})
 			st.Execs += runs
@@ -315,7 +365,16 @@ func c18Node(n *snapNode, humanized bool, st *SuiteStats, viol map[string]*Viola
 
 // bot tables: every hand played entirely by bots reaches settlement
 func c18BotTable(prefix []int, n int, stacks []int64, blind pt.TableBlindState) *vrt.Exec {
-	return runTable(prefix, vrt.Config{DataExplore: true, DataCost: true}, func(env *vrt.Env) (string, string, string) {
+	return c18BotTableX(prefix, n, stacks, blind, 0)
+}
+
+// c18BotTableX with inject=true: the same bot table with default draws while a newcomer's PlayerReserve, issued by
+// an outside caller, competes with the bots' moves under every schedule within the bound. The engine notifies the
+// actors while it holds its lock and a (non-humanized) bot answers from inside that notification while its
+// actor's lock is held; the hand must settle all the same.
+func c18BotTableX(prefix []int, n int, stacks []int64, blind pt.TableBlindState, injectAt int) *vrt.Exec {
+	inject := injectAt > 0
+	return runTable(prefix, vrt.Config{DataExplore: !inject, DataCost: !inject}, func(env *vrt.Env) (string, string, string) {
 		tc := defaultCfg(4)
 		tc.Blind = blind
 		tc.ActionTime = 5
@@ -327,8 +386,16 @@ func c18BotTable(prefix []int, n int, stacks []int64, blind pt.TableBlindState) 
 		var chosen []string
 		orig := td.te
 		cb := td.callbacks()
+		playingSeen := 0
 		td.te.OnTableUpdated(func(t *pt.Table) {
 			cb.OnTableUpdated(t)
+			if inject && t.State.Status == pt.TableStateStatus_TableGamePlaying {
+				playingSeen++
+				if playingSeen == injectAt {
+					// the outside caller turns up while this update is on its way to the actors
+					env.Go("outside:reserve", false, func() { td.reserve("x", 3, 5) })
+				}
+			}
 			for _, a := range actors {
 				a.GetTable().UpdateTableState(t)
 			}
@@ -349,6 +416,9 @@ func c18BotTable(prefix []int, n int, stacks []int64, blind pt.TableBlindState) 
 			td.reserve(id, i, stacks[i])
 		}
 		td.start()
+		if inject {
+			env.WindowBegin()
+		}
 		// no driver response: only timers
 		ok := false
 		for i := 0; i < 400; i++ {
@@ -363,7 +433,14 @@ func c18BotTable(prefix []int, n int, stacks []int64, blind pt.TableBlindState) 
 			}
 			env.AdvanceTimer()
 		}
+		if inject {
+			env.WindowEnd()
+		}
 		outcome := fmt.Sprintf("settled=%v %v %s", ok, chosen, handOutcome(td))
+		if !ok && inject {
+			t := td.table()
+			return outcome, "bot-hand-never-settles@outside-reserve-racing-bot-move", fmt.Sprintf("a newcomer's PlayerReserve issued while the bots play: the hand did not reach settlement: status %s, event %s, blocked %v, errors %v", t.State.Status, gsEvent(t), env.Blocked(), td.errs)
+		}
 		if !ok {
 			t := td.table()
 			return outcome, "bot-hand-never-settles", fmt.Sprintf("a hand played entirely by bots did not reach settlement: status %s, event %s, bot decisions %v, errors %v\n%s", t.State.Status, gsEvent(t), chosen, td.errs, describeNode(t))
@@ -376,12 +453,45 @@ func c18BotTable(prefix []int, n int, stacks []int64, blind pt.TableBlindState) 
 
 func c19Node(n *snapNode, st *SuiteStats, viol map[string]*Violation, suite string) {
 	t := n.T
+	// "playing" published without a hand state (see c18Node): the player runner is not asked anything
+	if t.State.Status == pt.TableStateStatus_TableGamePlaying && t.State.GameState != nil && gsEvent(t) == "ReadyRequested" {
+		for _, p := range t.State.PlayerStates {
+			variant := deepCopy(t)
+			variant.State.GameState = nil
+			var calls []recCall
+			res := vrt.Run(vrt.Config{MaxSteps: 100000}, func(env *vrt.Env) {
+				rec := &recEngine{now: env.Now}
+				a := newActorOn(rec, deepCopy(variant), actor.NewPlayerRunner(p.PlayerID))
+				a.GetTable().UpdateTableState(variant)
+				env.Settle()
+				for i := 0; i < 4 && env.PendingTimers() > 0; i++ {
+					env.AdvanceTimer()
+					env.Settle()
+				}
+				calls = rec.calls
+				st.Transitions++
+				st.Execs++
+			})
+			key, detail := "", ""
+			if res.DriverPanic != "" {
+				key, detail = "panic@playing-without-hand-state", fmt.Sprintf("player runner of %s shown status playing without a hand state panics: %s", p.PlayerID, firstLine(res.DriverPanic))
+			} else if len(calls) > 0 {
+				key, detail = "acts-when-not-asked@playing-without-hand-state", fmt.Sprintf("player runner of %s shown status playing without a hand state submitted %+v", p.PlayerID, calls)
+			}
+			if key != "" {
+				if _, ok := viol[key]; !ok && !hitKnown(key, detail) {
+					clause, k := splitKey(key)
+					viol[key] = &Violation{Suite: suite, Clause: clause, Key: k, Detail: detail + "\nnode: " + describeNode(t) + "\nfrom: " + n.From}
+				}
+			}
+		}
+	}
 	for _, pl := range t.State.PlayerStates {
 		id := pl.PlayerID
 		gi, allowed := askedActions(t, id)
 		asked := len(allowed) > 0
 		for _, status := range []string{"running", "idle", "idle-last", "suspended"} {
-			for _, at := range []int{0, 1, 10} {
+			for _, at := range []int{0, 1, 10, 75} {
 				var v *Viol
 				vrt.Run(vrt.Config{MaxSteps: 100000}, func(env *vrt.Env) {
 					rec := &recEngine{now: env.Now}
@@ -516,6 +626,33 @@ func c20Node(n *snapNode, st *SuiteStats, viol map[string]*Violation, suite stri
 	}
 	ids := []string{"a", "b"}
 	origJSON, _ := t.GetJSON()
+	// the same hand state published under the table statuses an external call can put a table into while a
+	// hand is in play (PauseTable / CloseTable do not end the hand): a plain observer must still see nothing hidden
+	if t.State.GameState != nil && t.State.Status == pt.TableStateStatus_TableGamePlaying {
+		for _, status := range []pt.TableStateStatus{pt.TableStateStatus_TablePausing, pt.TableStateStatus_TableClosed} {
+			variant := deepCopy(t)
+			variant.State.Status = status
+			var seen *pt.Table
+			vrt.Run(vrt.Config{MaxSteps: 100000}, func(env *vrt.Env) {
+				o := actor.NewObserverRunner()
+				o.OnTableStateUpdated(func(tt *pt.Table) { seen = tt })
+				a := newActorOn(&recEngine{now: env.Now}, deepCopy(variant), o)
+				a.GetTable().UpdateTableState(variant)
+				env.Settle()
+				st.Transitions++
+				st.Execs++
+			})
+			if seen != nil {
+				if why := hiddenOK(seen); why != "" {
+					key := "observer-sees-hidden-cards@status-" + string(status)
+					if _, ok := viol[key]; !ok && !hitKnown(key, why) {
+						clause, k := splitKey(key)
+						viol[key] = &Violation{Suite: suite, Clause: clause, Key: k, Detail: fmt.Sprintf("a plain observer shown a hand in play under table status %s: %s\nnode: %s\nfrom: %s", status, why, describeNode(t), n.From)}
+					}
+				}
+			}
+		}
+	}
 	for _, order := range orders {
 		var v *Viol
 		vrt.Run(vrt.Config{MaxSteps: 100000}, func(env *vrt.Env) {
@@ -770,6 +907,14 @@ func init() {
 				b := b
 				ss = append(ss, &Suite{Name: fmt.Sprintf("c18/bot-table%d/n%d/%s", i, b.n, blindName(b.blind)), Bound: bound, Weight: 3, Run: func(prefix []int) *vrt.Exec { return c18BotTable(prefix, b.n, b.stacks, b.blind) }})
 			}
+			for k := 1; k <= 8; k++ {
+				k := k
+				ss = append(ss, &Suite{Name: fmt.Sprintf("c18/bot-table-outside-reserve/n2/at-update-%d", k), Bound: 1, Weight: 3, Run: func(prefix []int) *vrt.Exec {
+					return c18BotTableX(prefix, 2, []int64{6, 6}, blindStd(), k)
+				}})
+			}
+			ss = append(ss, orderSuite("c18/delivery-order/within-hand", "bot", tier, false))
+			ss = append(ss, orderSuite("c18/delivery-order/across-hands", "bot", tier, true))
 			return ss
 		},
 	})
@@ -785,6 +930,7 @@ func init() {
 			for sh := 0; sh < 8; sh++ {
 				ss = append(ss, c19HistSuite(tier, sh, 8))
 			}
+			ss = append(ss, orderSuite("c19/delivery-order", "player", tier, true))
 			return ss
 		},
 	})
@@ -814,7 +960,7 @@ func init() {
 			cfgs := histConfigs(tier, []int{4}, []string{pt.CompetitionMode_CT}, []pt.TableBlindState{blindStd(), blindAnte()}, 2)
 			for _, hc := range cfgs {
 				hc.between = []string{"none", "arrive", "leave-busted"}
-				hc.mid = []string{"none", "arrive", "sitout", "addon-part", "rebuy-part", "leave-sitout", "blind-raise"}
+				hc.mid = []string{"none", "arrive", "sitout", "addon-part", "rebuy-part", "leave-sitout", "blind-raise", "pause"}
 				hc.late = []string{"none", "arrive"}
 			}
 			ss = append(ss, histSuites("c20/live-observer/", cfgs, hb, func(h *hist) []Monitor { return []Monitor{newMonObserver(h.td)} })...)
